@@ -32,6 +32,9 @@ func propC15() Property {
 			{ID: "C15-R7", Desc: "a relaxation switches off only its own check", Min: 2, Run: c15R7},
 			{ID: "C15-R8", Desc: "user-defined boundary is tag < 5000; a missing-field reject names a tag from the definition", Min: 3, Run: c15R8},
 			{ID: "C15-R9", Desc: "every validator is built with the configured settings", Min: 2, Run: c15R9},
+			{ID: "C15-R17", Desc: "boolean literals accepted = literals produced (= C14-R2)", Min: 2, Run: c14R2},
+			{ID: "C15-R16", Desc: "the built-in header/trailer tables agree with the shipped specs (= C11-R1)", Min: 9, Run: c11R1},
+			{ID: "C15-R15", Desc: "validation ranges over exactly the fields the parser extracted (= C11-R12)", Min: 1, Run: c11R12},
 			{ID: "C15-R14", Desc: "the section-order tracker, read as an automaton, accepts exactly header* body* trailer*", Min: 1, Run: c15R14},
 			{ID: "C15-R13", Desc: "the group sub-parser files every field it extracted (= C13-R5): validation sees what is on the wire", Min: 6, Run: c13R5},
 			{ID: "C15-R12", Desc: "the duplicate-tag set is allocated by the walk that uses it", Min: 1, Run: c15R12},
